@@ -20,6 +20,7 @@ GETCP = "(*%s/internal/witness.Witness).GetCheckpoint" % W
 
 BA = "%s/internal/feeder/bastion" % W
 FD = "%s/internal/feeder" % W
+CF = "%s/internal/config" % W
 HT = "%s/internal/http" % W
 CL = "%s/client/http" % W
 RS = "%s/internal/distribute/rest" % W
@@ -58,6 +59,12 @@ PROPS = {
             "assumptions": [A_NOTE, A_STORE, "net/http ResponseWriter, rate.Limiter, strings.SplitN contracts (contracts/55_http.spec)",
                             "the interface contract of feeder.Witness.Update is proved for omniwitness.witnessAdapter from the proved contract of (*Witness).Update under the adapter's configuration preconditions (store, published verifier, origins); omniwitness.Main establishing that configuration is read, not verified",
                             "TLS 1.3 / HTTP-2 reverse connection, http.MaxBytesHandler and the rate limiter's arithmetic are not covered"]},
+    "C12": {"runs": [{"funcs": [UPDATE, ASLOGMAP, WNEW, CF + ".NewLog", BA + ".addHandler).ServeHTTP", BA + ".addHandler).handleUpdate", RS + ".Distributor).distributeForLog",
+                               FD + "/sumdb.FeedLog", FD + "/pixelbt.FeedLog", FD + "/rekor.FeedLog", FD + "/serverless.FeedLog", FD + "/tiles.FeedLog",
+                               OW + ".witnessAdapter).Update"] + IM_FUNCS + [SQ + ".verifScenarioWrite"], "tags": ["C12"]}],
+            "assumptions": [A_NOTE, A_STORE, A_SQL, "log.ID is a function of the origin (uninterpreted ID(.)); formats/note.NewVerifier is a function of the key string",
+                            "bastion.FeedBastion filling its table with h.logs[l.ID] = l and omniwitness.Main passing the same []config.Log to feeders, bastion and distributor use goroutines/select and are read, not verified",
+                            "the HTTP read API passes the path variable through unchanged (C16)"]},
     "C13": {"runs": [{"funcs": [FD + ".submitToWitness$1", FD + ".submitToWitness", FD + ".FeedOnce", OW + ".witnessAdapter).Update", OW + ".witnessAdapter).GetLatestCheckpoint"], "tags": ["C13"]}],
             "assumptions": [A_NOTE, "contract of github.com/cenkalti/backoff/v4.Retry: it runs the operation some number of times and returns nil iff the last run returned nil (modelled as: earlier attempts havoc what the operation may modify, then one final attempt by its contract); that the retry loop ends is not shown",
                             "field contracts of FeedOpts.FetchCheckpoint / FetchProof (what each feeder stores there is not verified here)"],
@@ -73,7 +80,7 @@ PROPS = {
     "C20": {"funcs": [UPDATE, INITM], "tags": ["C20"], "assumptions": [A_NOTE, A_STORE, A_VCPREFIX, "monitoring.Counter.Inc adds one to the counter for its label (interface contract)"]},
 }
 
-HOOK_COMMITS = ["7296b73", "af7d29a", "308f21e", "b6239f6", "c655fca", "35e6d9a", "634df6a", "1ee2140", "3f24477", "316cd06"]
+HOOK_COMMITS = ["7296b73", "af7d29a", "308f21e", "b6239f6", "c655fca", "35e6d9a", "634df6a", "1ee2140", "3f24477", "316cd06", "2c086ba"]
 
 NOT_APPLICABLE = {
     "C14": "whole-system liveness and timing over goroutines, tickers, HTTP servers and stub log servers ('within a bounded number of poll intervals', across restarts): no per-function contract expresses 'eventually catches up', and omniwitness.Main (go/select/errgroup) is outside the generator's subset. Its safety ingredients are decided by C01, C12, C13, C16.",
@@ -109,6 +116,8 @@ MANIFEST_TEXT = {
             "note": "the verdict of the Merkle hash chaining is the uninterpreted function vc(...); agreement with an independent RFC 6962 verifier is not decided here. The defect found by this check (F3) was repaired by commit eed264f."},
     "C10": {"level": "Postconditions of (*addHandler).handleUpdate against the PROVED contract of the real witness (carried through the interface contract of feeder.Witness.Update, which omniwitness.witnessAdapter.Update is proved to refine from (*Witness).Update's contract -- the composition the test suite never exercises): the request reaches the witness exactly once and unchanged; accepted => 200 and the body is '— name base64\\n' of the first signature of the returned note verified under the witness verifier, over the submitted text; old size too large => 400; stale => 409 with Content-Type text/x.tlog.size and the decimal size of the stored checkpoint; root mismatch => 409; bad proof => 422; bad signature => 403.",
             "note": "ServeHTTP is verified too (17 blocks, all paths): exactly one status line out of {200,400,403,404,409,422,429,500}; over the rate => 429 without reading the body or calling the witness; the witness is asked at most once, for ID(first line of the checkpoint), only for a log in the handler's table; the status, Content-Type and body follow the witness's verdict. parseBody is used through a structural contract here (its text-format contract is C11). TLS/HTTP-2 leg, MaxBytesHandler and the limiter's arithmetic are not covered. F1 (over 100 signature lines) is carved out as a known finding; F4 was repaired."},
+    "C12": {"level": "Isolation: Update's frame over the abstract store as a quantified postcondition (for every persistence object and key other than (this witness's store, logID) presence and bytes are unchanged; a commit is to exactly (store, logID) with a text that parsed under that ID's origin and key), the same for the in-memory map (only key logID written) and the SQL scenario (crash invariant: every other row untouched, upsert parameterised by the handle's log ID), the call-graph obligation that only Update writes, and the commutation lemma for updates of different IDs. Identity: 'key == ID(origin)' proved at every site that makes or uses one: LogConfig.AsLogMap (loop proof, incl. refusal of two configured logs that share an ID), config.NewLog, bastion ServeHTTP (ID of the first line; only logs of its table), handleUpdate, distributeForLog (URL and witness query use l.ID), the five feeders' FeedLog (feed cycle started with exactly l.ID, l.Origin, l.Verifier and the witness handed in), witness.New (map stored unchanged).",
+            "note": "FeedBastion and omniwitness.Main (goroutines/select) are read, not verified."},
     "C13": {"level": "Trace postconditions (ghost call records of the witness interface and of FetchProof) of one attempt of the retry loop (the closure submitToWitness$1, verified on its own with its captured variables as pointer parameters), of submitToWitness and of FeedOnce: exactly one GetLatestCheckpoint and at most one Update per attempt, for this log's ID; an Update only after the witness answered with a checkpoint or 'none'; old size == size of exactly that answer (0 if none), which verified under the log's key and origin; proof empty for a refresh, otherwise exactly FetchProof(witness checkpoint -> submitted checkpoint); no Update and a permanent error when the witness is ahead; every failing step => non-permanent error and no later Update; success returns the bytes the witness returned; FeedOnce sends nothing unless the fetched checkpoint verifies and submits the fetched bytes unchanged. The adapter between feeder and witness is proved to forward faithfully.",
             "note": "safety part only; liveness of backoff.Retry is not decided."},
     "C15": {"level": "Trace postconditions of distributeForLog (all 10 return paths): the witness is asked once for l.ID; at most one request; if one is sent it is a PUT of exactly the bytes the witness returned, to baseURL + /distributor/v0/logs/<l.ID>/byWitness/<PathEscape(witness key name)>/checkpoint, and only after ParseCheckpoint(bytes, l.Origin, l.Verifier, witness verifier) succeeded with exactly two verified signatures; any failing step (witness error, parse, URL, request, transport, method rewritten by a redirect, body read, status != 200) => non-nil error; success counter moves iff success. DistributeOnce: loop invariant -- every configured log is attempted, numErrs counts the failures, result non-nil iff some log failed.",
